@@ -4,6 +4,7 @@ import (
 	"bytes"
 	"fmt"
 	"strings"
+	"sync"
 
 	"verif/internal/core"
 )
@@ -16,6 +17,56 @@ type extSpec struct {
 	name    string // member name in an "x:" list
 	trigger func(tok string) bool
 	others  string // all other extensions, as an x: list
+}
+
+// c11DocTrigger is the document-level form of the statement's side condition: true when the document contains a
+// character (sequence) the extension's syntax needs, i.e. when the property says nothing about it.
+func c11DocTrigger(ext string, doc []byte) bool {
+	switch ext {
+	case "strike":
+		return bytes.IndexByte(doc, '~') >= 0
+	case "table":
+		return bytes.IndexByte(doc, '-') >= 0
+	case "tasklist":
+		return bytes.IndexByte(doc, '[') >= 0
+	case "footnote":
+		return bytes.Contains(doc, []byte("[^"))
+	case "deflist":
+		return bytes.IndexByte(doc, ':') >= 0
+	case "typographer":
+		return bytes.ContainsAny(doc, "'\"-.<>")
+	case "linkify":
+		return bytes.ContainsAny(doc, ":@") || bytes.Contains(bytes.ToLower(doc), []byte("www."))
+	}
+	// CJK variants: pure ASCII without backslash-space
+	for _, c := range doc {
+		if c >= 0x80 {
+			return true
+		}
+	}
+	return bytes.Contains(doc, []byte("\\ "))
+}
+
+// c11Structured runs the "with == without" comparison on structured documents that short words do not reach: the
+// 1-edit neighbourhood of the spec examples and the nesting documents, each filtered by the document-level side condition.
+func c11Structured(r *core.Run, ext string, base, with core.Cfg) {
+	var bases sync.Map // *core.Conv (with) -> *core.Conv (base), one pair per worker
+	var tmps sync.Map
+	fn := func(s *core.Sub, x *core.Conv, doc []byte) {
+		if c11DocTrigger(ext, doc) {
+			return
+		}
+		bv, ok := bases.Load(x)
+		if !ok {
+			bv = core.NewConv(base)
+			bases.Store(x, bv)
+			tmps.Store(x, new([]byte))
+		}
+		tv, _ := tmps.Load(x)
+		c11Case(s, bv.(*core.Conv), x, doc, ext, tv.(*[]byte))
+	}
+	nbhdSub(r, fmt.Sprintf("nbhd-spec/%s/base=%s", ext, base), with, fn)
+	nestSub(r, fmt.Sprintf("nesting/%s/base=%s", ext, base), with, core.Pick(r, 3, 4), fn)
 }
 
 func hasAny(chars string) func(string) bool {
@@ -91,6 +142,16 @@ func runC11(r *core.Run) {
 					var tmp []byte
 					return func(word []byte) uint64 { return c11Case(s, b, x, word, e.name, &tmp) }
 				})
+		}
+	}
+	for _, e := range c11Exts {
+		c11Structured(r, e.name, core.MustCfg("core"), core.MustCfg("x:"+e.name))
+	}
+	for _, cj := range []string{"cjk-simple", "cjk-css3", "cjk-esc", "cjk"} {
+		c11Structured(r, cj, core.MustCfg("core"), core.MustCfg("x:"+cj))
+		if cj == "cjk-simple" || cj == "cjk-css3" {
+			others := "x:linkify,table,strike,tasklist,deflist,footnote,typographer"
+			c11Structured(r, cj, core.MustCfg(others), core.MustCfg(others+","+cj))
 		}
 	}
 	// CJK: pure ASCII without backslash-space
